@@ -182,6 +182,10 @@ class Tr:
                 return '(ECall "np.vstack" [%s])' % self.expr(e.args[0])
             if dotted(f) is not None and (dotted(f) + '()') in self.consts and not e.args and not e.keywords:
                 return '(EConst %s)' % const_value(self.consts[dotted(f) + '()'])          # a data-module function returning a literal
+            if isinstance(f, ast.Name) and f.id == 'sum' and len(e.args) == 1 and not e.keywords:
+                return '(ECall "sum" [%s])' % self.expr(e.args[0])
+            if dotted(f) in ('aminoacids.get_KD_uversky', 'data.aminoacids.get_KD_uversky') and not e.args and not e.keywords:
+                return '(ECall "get_KD_uversky" [])'          # a computed table of the data module (tied by tables_tie): a primitive
             if dotted(f) == 'itertools.product' and len(e.args) == 1 and len(e.keywords) == 1 and e.keywords[0].arg == 'repeat':
                 return '(ECall "itertools.product" [%s; %s])' % (self.expr(e.args[0]), self.expr(e.keywords[0].value))
             if dotted(f) in ('np.power', 'numpy.power') and len(e.args) == 2 and not e.keywords:
@@ -466,7 +470,7 @@ def literal_dicts(path):
 
 
 FDIV = {'g_LZW', 'g_LC', 'g_CWF'}
-QDIV = {'g_charge_at_pH', 'g_SCD', 'g_sigma', 'g_deltaForm', 'g_delta', 'g_kappa', 'g_Fplus', 'g_Fminus', 'g_FCR', 'g_NCPR'}
+QDIV = {'g_linHydro', 'g_charge_at_pH', 'g_SCD', 'g_sigma', 'g_deltaForm', 'g_delta', 'g_kappa', 'g_Fplus', 'g_Fminus', 'g_FCR', 'g_NCPR'}
 
 FUNCS = [
     # (Coq name, file, class, function, prefixes under which the data module's names are visible there)
@@ -545,6 +549,7 @@ FUNCS = [
     ('g_deltaForm', 'localcider/backend/sequence.py', 'Sequence', 'deltaForm', []),
     ('g_delta', 'localcider/backend/sequence.py', 'Sequence', 'delta', []),
     ('g_kappa', 'localcider/backend/sequence.py', 'Sequence', 'kappa', []),
+    ('g_linHydro', 'localcider/backend/sequence.py', 'Sequence', 'linearDistOfHydropathy', ['aminoacids.']),
     ('g_linNCPR', 'localcider/backend/sequence.py', 'Sequence', 'linearDistOfNCPR', []),
     ('g_linFCR', 'localcider/backend/sequence.py', 'Sequence', 'linearDistOfFCR', []),
     ('g_linSigma', 'localcider/backend/sequence.py', 'Sequence', 'linearDistOfSigma', []),
